@@ -163,12 +163,14 @@ class OpAddNe(OpAdd):
 
         target = self.path.parts[-1]
         if isinstance(parent, MutableSequence):
-            if obj is UNDEFINED:
-                parent.append(copy.deepcopy(self.value))
-            else:
-                parent.insert(int(target), copy.deepcopy(self.value))
-        elif isinstance(parent, MutableMapping) and str(target) not in parent:
-            parent[str(target)] = copy.deepcopy(self.value)
+            _insert(parent, target, copy.deepcopy(self.value))
+        elif isinstance(parent, MutableMapping):
+            if str(target) not in parent:
+                parent[str(target)] = copy.deepcopy(self.value)
+        else:
+            raise JSONPatchError(
+                f"unexpected operation on {parent.__class__.__name__!r}"
+            )
         return data
 
 
